@@ -625,6 +625,9 @@ func drawGenOpts(r *RNG) genOpts {
 	} else if r.Chance(1, 6) {
 		o.NGlobal = r.Range(1, 5)
 	}
+	if r.Chance(1, 25) { // nothing but labels, EQUs and directives: an empty image
+		o.NStmts = 0
+	}
 	return o
 }
 
@@ -779,6 +782,16 @@ func genBody(r *RNG, o genOpts) (body []string, hasEqu, hasGlobal bool) {
 	}
 	for _, l := range pending {
 		body = append(body, l+":")
+	}
+	if len(g.labels) > 0 && r.Chance(1, 10) { // a label defined twice
+		body = append(body, pick(r, g.labels)+":", "\tNOP")
+	}
+	if len(g.equs) > 0 && r.Chance(1, 10) { // an EQU name redefined, or also defined as a label
+		if r.Chance(1, 2) {
+			body = append(body, pick(r, g.equs)+"\tEQU\t"+fmt.Sprintf("0x%x", r.Intn(0x1000)))
+		} else {
+			body = append(body, pick(r, g.equs)+":")
+		}
 	}
 	for _, t := range g.mustJump {
 		body = append(body, "\t"+pick(r, []string{"JMP", "JE", "JNZ", "CALL"})+"\t"+t)
